@@ -1,8 +1,8 @@
 (* C10 — non-vacuity examples (concrete states meeting the hypotheses of the
    theorems of Property.v, by vm_compute), the necessity of the side condition
    of c10_embed_stable_regex, and refutations of the pre-repair behaviour. *)
-From Coq Require Import String ZArith List Bool.
-From Verif Require Import C10.Regex C10.RegexProofs C10.Model C10.Proofs.
+From Coq Require Import String ZArith List Bool Lia.
+From Verif Require Import C10.Regex C10.RegexProofs C10.Model C10.Proofs C10.LiveProofs.
 Import ListNotations.
 Open Scope Z_scope.
 
@@ -187,7 +187,12 @@ Example ex_host_membrane :
   (let r := snd (mfilter cfg0 (minit [g_dbl; s_ignore; s_foo; s_tea] 2 0) x_hello) in
    (r_allowed r, map s_id (r_matched r)) = (false, [30])) /\
   map s_id (scan py_cc ([s_ignore; s_foo] ++ g_dbl :: [s_tea]) [116;101;97;32;102;111;111;32;111;111]) = [1; 30; 2].
-Proof. vm_compute. repeat split; auto. Qed.
+Proof.
+  (* the closure inside g_dbl is never normalised: the first conjunct is an instance of the theorem, the others
+     compute to closure-free values *)
+  split; [exact (proj1 (proj2 (proj2 (proj2 host_judged_alone_all))) cfg0 st0 g_dbl _)|].
+  repeat split; vm_compute; reflexivity.
+Qed.
 
 Example ex_host_innate :
   let st1 := irun py_cc (fst (istep py_cc vals0 ist0 (IAddPattern g_dbl)))
@@ -195,7 +200,10 @@ Example ex_host_innate :
   In g_dbl (i_pats st1) /\
   (exists r, snd (icheck py_cc vals0 st1 x_hello) = IOk r /\ ir_allowed r = false /\ map s_id (ir_matched r) = [30]) /\
   (exists r, snd (icheck py_cc vals0 st1 x_helo) = IOk r /\ ir_allowed r = true /\ ir_matched r = []).
-Proof. vm_compute. repeat split; eauto 7. Qed.
+Proof.
+  split; [exact (proj1 (proj2 (proj2 (proj2 (proj2 (proj2 host_judged_alone_all))))) py_cc vals0 ist0 g_dbl _)|].
+  split; eexists; (split; [reflexivity|]); split; vm_compute; reflexivity.
+Qed.
 
 Lemma dbl_cons : forall a l, dbl l = true -> dbl (a :: l) = true.
 Proof. intros a [|z l] H; [discriminate|]. cbn [dbl] in *. rewrite H. apply orb_true_r. Qed.
@@ -284,3 +292,63 @@ Proof. vm_compute. reflexivity. Qed.
 Lemma c10_legacy_validator_raise_refuted :
   exists cc (vals : list validator) st c, snd (icheck cc vals st c) = IRaised.
 Proof. exists py_cc, [fun _ => VRaises], ist0, [91; 91; 91]. vm_compute. reflexivity. Qed.
+
+(* ---- round 6: live reconfiguration and decorated occurrences ------------------ *)
+
+(* c10_rate_bound_live / c10_live_reconfiguration: Membrane(rate_limit=2), four
+   requests (two pass the rate check), rate_limit = 5 on the live object, six
+   more requests in the same window: exactly three more pass (5 in the window:
+   the bound is attained), the rest are refused; then rate_limit = None: nothing
+   is refused and nothing is counted; then rate_limit = 1 a minute later. *)
+Definition live_ops : list lop :=
+  [LOp (OFilter [97]); LOp (OFilter [98]); LOp (OFilter [99]); LOp (OFilter [100]);
+   LSetRate (Some 5);
+   LOp (OFilter [101]); LOp (OFilter [102]); LOp (OFilter [103]); LOp (OFilter [104]); LOp (OFilter [105]);
+   LOp (OFilter [106]);
+   LSetRate None; LOp (OFilter [107]); LOp (OFilter [108]);
+   LSetRate (Some 1); LOp (OTick 121); LOp (OFilter [109]); LOp (OFilter [110])].
+Example ex_live_rate :
+  let es := snd (lrun cfg2 st0 live_ops) in
+  Forall lnonneg live_ops /\
+  map (fun e => (fst e, negb (is_limited (r_kind (snd e))))) es =
+    [(Some 2, true); (Some 2, true); (Some 2, false); (Some 2, false);
+     (Some 5, true); (Some 5, true); (Some 5, true); (Some 5, false); (Some 5, false); (Some 5, false);
+     (None, true); (None, true); (Some 1, true); (Some 1, false)] /\
+  trailing 1000 (ladmitted (firstn 7 es)) = 5 /\
+  ladmitted es = [1000; 1000; 1000; 1000; 1000; 1121] /\
+  c_rate (fst (fst (lrun cfg2 st0 live_ops))) = Some 1.
+Proof.
+  split; [repeat constructor; cbn; lia|]. vm_compute. repeat split; reflexivity.
+Qed.
+
+(* enable_adaptive switched off on the live membrane: learn_threat does nothing,
+   what was learnt before stays active (and keeps blocking), and the replay
+   memory survives every assignment *)
+Example ex_live_adaptive :
+  let ops := [LOp (OLearn s_learn); LSetAdaptive false; LOp (OLearn s_learn1); LOp (OFilter x_secret);
+              LSetRate (Some 9); LOp (OForget (s_key s_learn)); LSetAdaptive true; LOp (OFilter x_secret);
+              LOp (OFilter x_Secret)] in
+  map (fun e => (r_kind (snd e), r_allowed (snd e), r_level (snd e))) (snd (lrun cfg0 st0 ops)) =
+    [(Scanned, false, 2); (Replay, false, 3); (Scanned, true, 0)].
+Proof. vm_compute. reflexivity. Qed.
+
+(* c10_decorated_occurrence_stays_blocked: U+0301 COMBINING ACUTE ACCENT right
+   after / before an occurrence leaves the occurrence in the text ("foo" U+0301
+   still contains \bfoo\b although "foox" does not; "a tea" U+0301 "b"); a mark
+   INSIDE the occurrence, a fullwidth spelling or a precomposed last letter is a
+   different string the signature does not match (nothing is demanded for it);
+   U+212A KELVIN SIGN is a case variant of k. *)
+Definition s_jail := mkSig 3 [106;97;105;108;98;114;101;97;107] (KSub [106;97;105;108;98;114;101;97;107]) 3.
+Example ex_decorations :
+  cc_word py_cc 769 = false /\
+  search py_cc r_foo (x_foo ++ [769]) = true /\ search py_cc r_foo ([769] ++ x_foo ++ [769; 120]) = true /\
+  search py_cc r_foo (x_foo ++ [120]) = false /\
+  sig_matches py_cc s_tea ([97; 32] ++ x_tea ++ 769 :: [98]) = true /\
+  r_allowed (snd (mfilter cfg0 st0 ([104; 105; 32] ++ x_attack ++ 769 :: [32; 120]))) = false /\
+  sig_matches py_cc s_jail [106;97;105;108;98;114;101;97;107;769] = true /\
+  sig_matches py_cc s_jail [106;97;105;108;98;114;101;769;97;107] = false /\
+  sig_matches py_cc s_jail [65354;65345;65353;65356;65346;65362;65349;65345;65355] = false /\
+  sig_matches py_cc s_jail [106;97;105;108;98;114;101;97;7729] = false /\
+  sig_matches py_cc s_jail [74;65;73;76;66;82;69;65;8490] = true /\
+  lower py_cc [65322; 8490; 201] = [65354; 107; 233].
+Proof. vm_compute. repeat split; reflexivity. Qed.
